@@ -116,7 +116,32 @@ def _assign_case(seed):
     tid, strand, exons = rng.choice(isoforms)
     kind = rng.choice(["exact", "truncated", "jitter", "intron_retention", "skipped_exon", "novel_exon", "partial_intron_retention",
                        "distant_5p_end", "novel_intron_in_exon"])
-    if kind == "skipped_exon":
+    len_diff = None
+    # a tenth kind, drawn from a generator of its own so that the cases of all earlier seeds (incl. the listed witness) stay what they were
+    rng2 = random.Random(seed * 7919 + 13)
+    if rng2.random() < .1:
+        kind = "alt_terminal_exon"
+    if kind == "alt_terminal_exon":
+        # all inner exons of T, but the first (or last) exon lies 800-3000 bp further out, not overlapping T's terminal exon: an alternative
+        # first / last exon, a structural difference far beyond every tolerance whatever its length
+        if len(exons) < 3:
+            return None, []
+        far = rng2.randint(800, 3000)
+        len_diff = rng2.choice([0, 1, -1, 5, -5, 11, -11, 12, -12, 23, -23, 24, -24, 40, -40, 80, -80, 150])
+        read = list(exons)
+        if rng2.random() < .5:
+            ln = max(30, exons[0][1] - exons[0][0] + 1 + len_diff)
+            len_diff = ln - (exons[0][1] - exons[0][0] + 1)
+            a = exons[0][0] - far - ln
+            if a < 1:
+                return None, []
+            read[0] = (a, a + ln - 1)
+        else:
+            ln = max(30, exons[-1][1] - exons[-1][0] + 1 + len_diff)
+            len_diff = ln - (exons[-1][1] - exons[-1][0] + 1)
+            a = exons[-1][1] + far
+            read[-1] = (a, a + ln - 1)
+    elif kind == "skipped_exon":
         big = [i for i in range(1, len(exons) - 1) if exons[i][1] - exons[i][0] >= 150]
         if not big:
             return None, []
@@ -152,6 +177,9 @@ def _assign_case(seed):
     events = sorted({e.event_type.name for m in ra.isoform_matches for e in m.match_subclassifications})
     desc = {"matching": matching, "kind": kind, "tail": polya, "isoform": tid, "n_isoforms": len(isoforms), "read": read, "type": t,
             "reported": reported, "events": events}
+    if len_diff is not None:
+        desc["terminal_exon_len_diff"] = len_diff
+        desc["delta"] = params.delta
     problems = []
     if kind in ("exact", "truncated", "jitter"):
         if t not in CONSISTENT:
@@ -189,6 +217,26 @@ def kf_two_isoforms_within_tolerance(inputs):
     return all(t in isoforms and follows(isoforms[t]) for t in desc["reported"]) and follows(isoforms[desc["isoform"]])
 
 
+def kf_alt_terminal_exon_same_length(inputs):
+    """known-finding class: the read has an alternative first / last exon (800-3000 bp away from T's terminal exon) whose LENGTH is within
+    2 * delta of the annotated terminal exon's; JunctionComparator reports terminal_exon_misalignment (a minor event) for it"""
+    desc, problems = _assign_case(inputs["seed"])
+    if not desc or not problems or desc.get("kind") != "alt_terminal_exon" or desc["type"] not in CONSISTENT:
+        return False
+    return abs(desc["terminal_exon_len_diff"]) < 2 * desc["delta"] and any(e.startswith("terminal_exon_misalignment") for e in desc["events"]) \
+        and all(p.startswith("a read with alt_terminal_exon") for p in problems)
+
+
+def _known_class(seed):
+    for name, fn in (("two_isoforms_within_tolerance", kf_two_isoforms_within_tolerance), ("alt_terminal_exon_same_length", kf_alt_terminal_exon_same_length)):
+        try:
+            if fn({"seed": seed}):
+                return name
+        except Exception:
+            pass
+    return ""
+
+
 def replay_assign(d):
     desc, p = _assign_case(d["inputs"]["seed"])
     return (not p), "seed %s %s: %s" % (d["inputs"]["seed"], desc, p or "as the property says")
@@ -221,13 +269,10 @@ def c01_e2e(tier, rng):
         kinds[desc.get("kind")] = kinds.get(desc.get("kind"), 0) + 1
         if p:
             # one representative inside and one outside the known-finding class (a different violation is still reported)
-            try:
-                cls = kf_two_isoforms_within_tolerance({"seed": base + k})
-            except Exception:
-                cls = False
+            cls = _known_class(base + k)
             viol.setdefault(cls, {"obligation": "C01.assigner_end_to_end", "inputs": {"seed": base + k}, "observed": [str(desc)] + p[:3],
                                   "required": "the property's sentence", "replay_call": "contracts.c_assign:replay_assign"})
-            if False in viol:
+            if "" in viol:
                 break
     if viol:
         return {"cases": done, "bound": "%d derived reads" % n, "violations": [viol[c] for c in sorted(viol)]}
